@@ -2,6 +2,8 @@ package verifsim
 
 import (
 	"bytes"
+	"crypto/rand"
+	"crypto/rsa"
 	"encoding/json"
 	"fmt"
 	"io"
@@ -175,6 +177,20 @@ func EnsureFixtures() error {
 	}
 	if err := os.WriteFile(tmp+"-p", []byte(pubp), 0o600); err != nil {
 		return err
+	}
+	for _, name := range []string{"client1_key", "client2_key"} {
+		k, err := rsa.GenerateKey(rand.Reader, 2048)
+		if err != nil {
+			return err
+		}
+		pem, err := security.ExportRsaPrivateKeyAsPem(k)
+		if err != nil {
+			return err
+		}
+		if err := os.WriteFile(tmp+"-c", []byte(pem), 0o600); err != nil {
+			return err
+		}
+		_ = os.Rename(tmp+"-c", d+"/"+name)
 	}
 	_ = os.Rename(tmp+"-k", d+"/node_key")
 	return os.Rename(tmp+"-p", d+"/node_key.pub")
